@@ -16,6 +16,8 @@ import (
 	"golang.org/x/tools/go/ssa/ssautil"
 )
 
+const ModulePath = "github.com/couchbase/nitro"
+
 func crc32IEEE(b []byte) uint32 { return crc32.ChecksumIEEE(b) }
 
 // Load builds SSA for the packages of repoDir with harness files overlaid.
@@ -52,13 +54,27 @@ func Load(repoDir string, patterns []string, overlay map[string]string, cfg *Con
 	prog.Build()
 	p := &Program{Prog: prog, Fset: prog.Fset, Pkgs: map[string]*ssa.Package{}, offCache: map[*types.Struct][]int64{},
 		Cfg: cfg, fnNames: map[*ssa.Function]string{}, executed: map[string]int{}, stubs: map[string]int{}, written: map[string]bool{}}
-	for _, sp := range spkgs {
-		if sp != nil {
+	_ = spkgs
+	for _, sp := range prog.AllPackages() {
+		p.Pkgs[sp.Pkg.Path()] = sp
+	}
+	// targets: every package of the module under test, dependencies first
+	seen := map[*types.Package]bool{}
+	var visit func(tp *types.Package)
+	visit = func(tp *types.Package) {
+		if seen[tp] || !strings.HasPrefix(tp.Path(), ModulePath) || strings.HasSuffix(tp.Path(), "/mm") {
+			return
+		}
+		seen[tp] = true
+		for _, im := range tp.Imports() {
+			visit(im)
+		}
+		if sp := p.Pkgs[tp.Path()]; sp != nil {
 			p.Targets = append(p.Targets, sp)
 		}
 	}
-	for _, sp := range prog.AllPackages() {
-		p.Pkgs[sp.Pkg.Path()] = sp
+	for _, lp := range pkgs {
+		visit(lp.Types)
 	}
 	p.registerHarness()
 	return p, nil
@@ -342,14 +358,9 @@ func (st *State) runUntilReturn(th *Thread) {
 	th.status = thReady
 }
 
-func (st *State) initOrder() []*ssa.Package {
-	// targets sorted so that imported targets come first
-	ts := append([]*ssa.Package(nil), st.p.Targets...)
-	sort.SliceStable(ts, func(i, j int) bool {
-		return importsPkg(ts[j].Pkg, ts[i].Pkg)
-	})
-	return ts
-}
+func (st *State) initOrder() []*ssa.Package { return st.p.Targets }
+
+var _ = sort.Strings
 
 func importsPkg(a, b *types.Package) bool {
 	for _, im := range a.Imports() {
@@ -409,7 +420,7 @@ func RunHarness(repo, verif, pkgRel string, cfg *Config) (*Result, error) {
 	tmp.WriteString(strings.Replace(string(tmpl), "package PKG", "package "+pkgName, 1))
 	tmp.Close()
 	ov[filepath.Join(repo, pkgRel, "zz_verif_api.go")] = tmp.Name()
-	mod := "github.com/couchbase/nitro"
+	mod := ModulePath
 	cfg.Package = mod
 	if pkgRel != "." {
 		cfg.Package = mod + "/" + strings.TrimPrefix(pkgRel, "./")
